@@ -97,7 +97,7 @@ def min_year(assets):
 def plan_jobs(prop, tier, rnd):
     q = tier == "quick"
     if prop in ("C13", "C19"):
-        slices = [("Y", 4), ("B", 3), ("F", 3), ("M", 3), ("C", 3)]
+        slices = [("Y", 4), ("B", 3), ("F", 3), ("M", 3), ("C", 3), ("T", 3), ("Z", 3)]
     elif prop == "C05":
         slices = [("Y", 4), ("C", 3)]
     elif prop == "C06":
